@@ -13,7 +13,10 @@ from vlib import c19_codec as C
 
 # ----------------------------------------------------------------------------- atoms
 ASCII = st.characters(min_codepoint=0x20, max_codepoint=0x7E)
-text_s = st.text(alphabet=ASCII, min_size=1, max_size=20)
+WIDE = st.sampled_from(u"abc \u00e9\u00fc\u0142\u03a9\u4e2d\u20ac\U0001f511e\u0301\u030a\u212b")
+# one text in five leaves ASCII (2- to 4-byte UTF-8 sequences, combining marks)
+text_s = st.one_of(*([st.text(alphabet=ASCII, min_size=1, max_size=20)] * 4
+                     + [st.text(alphabet=WIDE, min_size=1, max_size=12)]))
 uid_s = st.one_of(st.integers(1, 99999).map(str), text_s)
 bytes_s = st.binary(min_size=0, max_size=40).map(lambda b: b.hex())
 nbytes_s = st.binary(min_size=1, max_size=40).map(lambda b: b.hex())
